@@ -152,7 +152,9 @@ def correspond(ctx: Ctx) -> None:
         ctx.stats.case(canon, nontrivial=abs(val) > 1e-12)
         tol = 1e-5 if label.endswith(":loose") else 1e-9
         # the Hessian stencil divides rounding noise of size ~1e-16 by h²
-        absol = 1e-12 / canon["point"][-1] ** 2 if label.endswith(":loose") else tol * 1e-2
+        # the Hessian stencil differences two inner finite-difference gradients (step 1e-6), each carrying a rounding
+        # error of about eps*|f|/1e-6, and divides by h: allow 100 * eps * max(1, |f|) / (1e-6 * h); |f| <= 10 on these points
+        absol = 100 * 2.3e-16 * 10.0 / (1e-6 * abs(canon["point"][-1])) if label.endswith(":loose") else tol * 1e-2
         if not close(val, float(expected), rel=tol, absol=absol):
             ctx.diverge(label.split(":")[0], f"{canon['expr']}[{canon['index']}] at {canon['point']}: generated "
                         f"expression gives {val!r}, the code gives {float(expected)!r}", canon)
